@@ -221,6 +221,14 @@ def chk_coords(case, acc, seed):
             acc.violation('coords:nonzero-outside-mask', dict(case, j=j), 'mode is non-zero outside the mask')
         if rm.maxerr(z, zb) > 1e-12:
             acc.violation('coords:depends-on-mask-values', dict(case, j=j), 'mode depends on the mask values, not only on its support')
+    # without normalisation too: zero outside the mask, and only the support of the mask matters
+    for j in (1, 4, 2, 3, 7, 8, 11):
+        zu = np.asarray(lentil.zernike(mask, j, normalize=False), dtype=float)
+        zub = np.asarray(lentil.zernike(ref_mask, j, normalize=False), dtype=float)
+        if not np.all(np.isfinite(zu)) or np.any(zu[~on] != 0):
+            acc.violation('coords:nonzero-outside-mask:unnormalised', dict(case, j=j), 'un-normalised mode is non-zero / not finite outside the mask')
+        elif rm.maxerr(zu, zub) > 1e-12:
+            acc.violation('coords:depends-on-mask-values:unnormalised', dict(case, j=j), 'un-normalised mode depends on the mask values, not only on its support')
     # the same through the basis / composition helpers, for every mask value
     try:
         Bv = np.asarray(lentil.zernike_basis(mask, [4, 2, 7]), dtype=float)
